@@ -476,6 +476,24 @@ pub fn run_c03(tier: Tier) -> Report {
             }
         }
     }
+    // every number of events 1..64 in one inter block (all of run 0, so n events fill n positions),
+    // in predicted and in disposable pictures, short and escape-coded last event
+    for n in 1..=64usize {
+        for ptype in [1u8, 2] {
+            for version in [0u8, 1] {
+                for esc_last in [false, true] {
+                    let v1 = version == 1;
+                    let mut evs: Vec<Ev> = (0..n - 1).map(|k| ev_auto(false, 0, if k % 3 == 0 { 2 } else { -1 }, v1)).collect();
+                    evs.push(if esc_last { Ev { run: 0, level: 37, form: esc_form(v1, 37) } } else { ev_auto(true, 0, 1, v1) });
+                    let mut blocks: [Blk; 6] = Default::default();
+                    blocks[1].ev = evs.clone();
+                    blocks[5].ev = evs;
+                    let reference = Pic { hdr: shdr(16, 16, 0, 0, 4, version), mbs: vec![Mb::intra_flat(120)] };
+                    cases.push(vec![reference, Pic { hdr: shdr(16, 16, ptype, 1, 4, version), mbs: vec![Mb::Coded { kind: Kind::Inter, dquant: 0, mvd: vec![(0, 0)], blocks }] }]);
+                }
+            }
+        }
+    }
     r.run("inter-block-events", &cases);
     rep.add_nontrivial(cases.len() as u64);
 
